@@ -759,3 +759,32 @@ def d7(cx: Cx, ob: Ob) -> None:
     from ..rules import stale_tables
 
     stale_tables(cx, ob, [f"{RECON}.remap_curie_prefixes"])
+
+
+@obligation("C11-D8", "tolerance of unknown names: the reconciliation functions look the names of the user's mapping up with the answering (None-returning) calls only - no `strict=True` / `*_strict` call outside a try that catches its error - since a pair whose old prefix is unknown is skipped, which an exception from a strict lookup turns into an aborted call", floor=1)
+def d8(cx: Cx, ob: Ob) -> None:
+    from ..rules import where as _where
+
+    for name in ("remap_curie_prefixes", "_order_curie_remapping"):
+        fn = cx.model.functions.get(f"{RECON}.{name}")
+        if fn is None:
+            continue
+        s = cx.summary(fn, ob.id, full=True)
+        ob.site(f"{fn.where} {fn.qualname}", "scanned for strict lookups")
+        seen = set()
+        for t, ev, _ in s.all_terms():
+            for c in subterms(t):
+                if op(c) != "call" or op(c[1]) != "attr":
+                    continue
+                nm = c[1][2]
+                strict_call = nm.endswith("_strict") or (is_const(dict(c[3]).get("strict"), True) and nm in ("standardize_prefix", "standardize_curie", "standardize_uri", "compress", "expand", "parse_curie", "parse_uri", "parse", "expand_pair", "expand_all", "expand_pair_all", "compress_or_standardize", "expand_or_standardize"))
+                if not strict_call or ev.cov or (ev.line, nm) in seen:
+                    continue
+                seen.add((ev.line, nm))
+                ob.violate(
+                    fn.qualname,
+                    _where(fn, ev.line),
+                    f"{name} calls `{show(c)[:60]}` - the raising variant - on a name from the user's mapping, outside any try: for a name the converter does not know the whole call aborts with a standardisation / conversion error instead of leaving that entry out",
+                    witness="a mapping with one unknown name next to applicable ones: PrefixStandardizationError, nothing is applied",
+                    detail=f"strict-lookup:{nm}",
+                )
